@@ -172,7 +172,8 @@ def run(ctx):
         zero = [a for a, n in res.items() if n == 0 and a.split(".")[1] not in ("Init",)]
         if zero:
             raise Infra("actions never taken in %s: %s" % (label, zero))
-    for cfg, inv in (("MC_Preview_dev.cfg", "ConvergenceLostCancel"), ("MC_Preview_dev_exit.cfg", "ExitCleanLostKill")):
+    for cfg, inv in (("MC_Preview_dev.cfg", "ConvergenceLostCancel"), ("MC_Preview_dev_exit.cfg", "ExitCleanLostKill"),
+                     ("MC_Preview_dev_show.cfg", "ConvergenceStaleAfterShow")):
         res = ctx.tlc("FzfPreview", cfg, workers=1, timeout=600, expect_ok=False, args=["-difftrace"])
         if res.code != 12 or not any(inv in e for e in res.errors):
             raise Infra("%s: expected a counterexample to %s (exit 12), got exit %d\n%s" % (cfg, inv, res.code, res.tail(20)))
